@@ -247,6 +247,8 @@ def run_placer(case):
                 for n, o in vobj.items())
     old = signal.signal(signal.SIGALRM, _alarm)
     signal.alarm(120)
+    dbg = gp.debug_logging(case.get("debug_log"))
+    dbg.__enter__()
     try:
         try:
             if case.get("seed", 0) % 4 == 0:
@@ -271,6 +273,7 @@ def run_placer(case):
         except (InsufficientResourceError, InvalidConstraintError) as e:
             return "failed", e
     finally:
+        dbg.__exit__(None, None, None)
         signal.alarm(0)
         signal.signal(signal.SIGALRM, old)
     require(isinstance(out, dict), "placer does not return a dict",
